@@ -270,7 +270,7 @@ def run_unit(name, tier="quick", use_cache=True, canary=True, repo=None):
                 "implicit obligations of the body: index/slice bounds, arithmetic overflow, unwrap/expect, "
                 "unreachable!, callee preconditions, termination")
             for c in f["clauses"]:
-                if c["kind"] in ("ensures", "invariant"):
+                if c["kind"] in ("ensures", "invariant", "assert"):
                     add("%s::%s::%s" % (name, f["name"], c["id"]), f["name"], c["id"], c["tags"], loc, rs.norm(c["text"]))
     template_fns = []
     for f in fns:
@@ -343,7 +343,7 @@ def run_unit(name, tier="quick", use_cache=True, canary=True, repo=None):
             continue
         failed_fns.setdefault(fnn, []).append(info)
         if fnn in extracted:
-            if kind in ("post", "invariant") and rec.get("clause"):
+            if kind in ("post", "invariant", "assert") and rec.get("clause"):
                 oid = "%s::%s::%s" % (name, fnn, rec["clause"])
                 if kind == "post":
                     ex = [s for s in sec if s["label"] and ("exit" in s["label"] or "end of the function" in s["label"])]
